@@ -33,7 +33,7 @@ impl IrValue {
         match self {
             Native(x) => {
                 let bytes = x.to_bytes_le();
-                if n as u32 > F::NUM_BITS.div_ceil(8) || bytes[n..].iter().any(|&b| b != 0) {
+                if n as u64 > F::NUM_BITS.div_ceil(8) as u64 || bytes[n..].iter().any(|&b| b != 0) {
                     Err(Error::Other(format!("cannot convert {x} to Bytes({n})")))
                 } else {
                     Ok(bytes[..n].to_vec().into())
@@ -90,7 +90,7 @@ pub fn into_bytes_incircuit(
     match input {
         // Like off-circuit, a native value is not converted into more bytes than a field
         // element holds (the decomposition chip would panic).
-        Native(_) if n as u32 > F::NUM_BITS.div_ceil(8) => Err(Error::Unsupported(
+        Native(_) if n as u64 > F::NUM_BITS.div_ceil(8) as u64 => Err(Error::Unsupported(
             Operation::IntoBytes(n),
             vec![input.get_type()],
         )),
